@@ -233,7 +233,9 @@ def gen_workload(rng, flows=(0,), n_max=12, sizes=(64, 128, 256, 512, 1000, 1500
             uids = []
             for _ in range(b):
                 fl = rng.choice(list(flows))
-                packets[str(uid)] = {"id": uid + 1, "flow": fl, "size": rng.choice(list(sizes)), "time": cf.qjson(t),
+                # creation time: usually the put instant, sometimes earlier (the packet travelled or waited before)
+                created = t if rng.random() < 0.6 else max(Fraction(0), t - rng.choice(gaps))
+                packets[str(uid)] = {"id": uid + 1, "flow": fl, "size": rng.choice(list(sizes)), "time": cf.qjson(created),
                                      "src": "src%d" % d}
                 uids.append(uid)
                 uid += 1
